@@ -374,12 +374,15 @@ def finish(pid, tier, level, tally, coverage, assumptions, t0, extra_evidence=No
     }
     if extra_evidence:
         ev.update(extra_evidence)
-    os.makedirs(os.path.join(VERIF, "evidence"), exist_ok=True)
-    tmp = os.path.join(VERIF, "evidence", f".{pid}.json.tmp")
+    # mutation runs (tools/mutest.py, tools/seedrun.py) divert their evidence so that the committed
+    # files always describe the unchanged tree
+    evdir = os.environ.get("VERIF_EVIDENCE_DIR") or os.path.join(VERIF, "evidence")
+    os.makedirs(evdir, exist_ok=True)
+    tmp = os.path.join(evdir, f".{pid}.json.tmp")
     with open(tmp, "w") as f:
         json.dump(ev, f, indent=1, ensure_ascii=False)
         f.write("\n")
-    os.replace(tmp, os.path.join(VERIF, "evidence", f"{pid}.json"))
+    os.replace(tmp, os.path.join(evdir, f"{pid}.json"))
     state = "held" if exit_code == 0 else "VIOLATED"
     log(f"[{pid}] {tier}: {state}; evaluations={cov.get('evaluations')} "
         f"distinct_nontrivial={cov.get('distinct_nontrivial')} wall={ev['wall_s']}s")
